@@ -44,3 +44,10 @@ func RandFloat32() float32 {
 	}
 	return 0.5
 }
+
+// ChanAndZero returns the channel (as a receive-only channel) and the zero value of its element type:
+// lets rewritten `for x := range ch` loops declare x once per loop without naming its type.
+func ChanAndZero[T any](ch <-chan T) (<-chan T, T) {
+	var z T
+	return ch, z
+}
